@@ -203,13 +203,8 @@ theorem produce_addBlock (env : Env) (cfg : Cfg) (n n' : Node) (ts : Int) (perm 
 /-- block production keeps C07 -/
 theorem addBlock_derived (env : Env) (l l' : Ledger) (ts : Int) (txs : List Tx) (newAddrs : List String)
     (hd : Derived l) (h : l.addBlock env ts txs newAddrs = .ok l') : Derived l' := by
-  unfold Ledger.addBlock at h
-  cases hc : l.confirmLast with
-  | error e => simp [hc] at h
-  | ok c =>
-    simp only [hc] at h
-    injection h with h
-    subst h
+  obtain ⟨_, c, hc, h⟩ := Ledger.addBlock_inv h
+  · subst h
     obtain ⟨hb, hr⟩ := confirmLast_replays_all l c hd hc
     unfold Derived
     simp only [List.dropLast_concat]
